@@ -8,10 +8,11 @@ From Dashu Require Import Base.Prelude Base.Words Int.RingSpec Int.RingSign Int.
   Int.DivWordModel Int.DivWordProofs Int.RingMulW Int.RingMulWProofs Int.RingOpsW Int.RingOpsWProofs
   Int.RingScratch Int.RingScratchProofs Int.RingPowW Int.RingPowWProofs Int.RingTopW Int.RingPrim Int.RingPrimProofs
   Int.WordPrims Int.WordKernelSpec Int.WordKernelRun Int.WordKernelsGenProofs Int.WordKernelSpecProofs Int.WordKernelRunProofs Int.WordKernelsGenTransfer
-  Int.RingOpsW4 Int.RingOpsW4Proofs Int.RingPowShift Int.RingPrimW4 Int.RingPrimW4Proofs.
+  Int.RingOpsW4 Int.RingOpsW4Proofs Int.RingPowShift Int.RingPrimW4 Int.RingPrimW4Proofs
+  Int.MulBodiesGenProofs Int.MulBodiesLen Int.MulBodiesRun Int.MulBodiesKnot.
 From Dashu Require Int.IoSpec Int.IoModel Int.IoBytes.
-From Dashu Require Int.BitsKernels Int.ReprOrdModel.
-From DashuGen Require Import SignTables Params MulMemory WordKernelsGen.
+From Dashu Require Int.BitsKernels Int.ReprOrdModel Int.DivWordInst.
+From DashuGen Require Import SignTables Params MulMemory WordKernelsGen MulBodiesGen.
 Open Scope Z_scope.
 
 (** ---- IBig sign tables (regenerated from add_ops.rs / mul_ops.rs on every run) *)
@@ -698,3 +699,94 @@ Example C01_from_unsigned_word_level_nonvacuous :
   32 = 8 * Z.of_nat 4 /\ 0 <= 2 ^ 100 + 5 < 256 ^ Z.of_nat 16 /\ repr_from_unsigned_w 32 16 (2 ^ 100 + 5) = Large [5; 0; 0; 16] /\
   repr_from_unsigned_w 32 16 (2 ^ 64 - 1) = Small (2 ^ 64 - 1).
 Proof. repeat split; try reflexivity; cbn; lia. Qed.
+
+(** ==== round 5: the BODIES of the multiplication stack are REGENERATED from the Rust source on every run
+    (coq/gen/MulBodiesGen.v by tools/translate_c01_r5.py: helpers::add_signed_mul_split_into_chunks, simple / karatsuba /
+    toom_3 ::add_signed_mul, karatsuba::add_signed_mul_same_len, the dispatch of mul/mod.rs, multiply, sqr::sqr, the four
+    size constants, tied by a generated fuel knot) and proved equal to the hand models; toom_3::add_signed_mul_same_len is
+    not regenerated (reported unparsed): it is the parameter [toom] / the hand model toom3x_same_len *)
+Theorem C01_gen_size_constants :
+  THRESHOLD_SIMPLE_gen = src_T_simple /\ THRESHOLD_KARATSUBA_gen = src_T_kara /\ CHUNK_LEN_gen = src_CHUNK /\ MAX_LEN_SIMPLE_gen = src_SQR.
+Proof. exact gen_constants. Qed.
+Print Assumptions C01_gen_size_constants.
+
+(** karatsuba::add_signed_mul_same_len as generated IS the hand model: every w, every word list, every recursion parameter *)
+Theorem C01_gen_karatsuba_step : forall w (rec_same rec_gen : mulfn) c s a b,
+  karatsuba_add_signed_mul_same_len_gen w rec_same rec_gen c s a b = karatsuba_same_len w rec_same c s a b.
+Proof. exact karatsuba_same_len_gen_eq. Qed.
+Print Assumptions C01_gen_karatsuba_step.
+
+(** helpers::add_signed_mul_split_into_chunks (fuelled while loop re-slicing a and c, code after the loop, operand swap of the
+    tail) = split_into_chunks, inside the length contract the code debug_asserts, for every chunk multiplier that keeps the
+    length of its output slice *)
+Theorem C01_gen_chunk_loop : forall w (f1 f rec_same rg1 rec_gen : mulfn) (chunk_len : nat) c s a b,
+  (forall c s a b, length c = (length a + length b)%nat -> rg1 c s a b = rec_gen c s a b) ->
+  (forall c s a b, f1 c s a b = f c s a b) ->
+  keeps_len f chunk_len (length b) -> length c = (length a + length b)%nat ->
+  add_signed_mul_split_into_chunks_gen w rec_same rg1 c s a b chunk_len f1 = split_into_chunks w f rec_gen chunk_len c s a b.
+Proof. exact split_into_chunks_gen_eq. Qed.
+Print Assumptions C01_gen_chunk_loop.
+Example C01_gen_chunk_loop_nonvacuous :
+  keeps_len (simple_chunk_fn 8) 2 1 /\
+  add_signed_mul_split_into_chunks_gen 8 (simple_chunk_fn 8) (simple_chunk_fn 8) [1; 2; 3; 4; 5; 6] Positive [255; 7; 9; 200; 13] [255] 2 (simple_chunk_fn 8)
+  = Ok ([2; 249; 1; 69; 191; 19], 0).
+Proof. split; [apply simple_chunk_keeps_len|reflexivity]. Qed.
+
+(** the chunk multipliers do keep the length: schoolbook chunk inside its contract; Karatsuba step (>= 2 words) when the
+    products it requests do; Toom-3 step whatever they return *)
+Theorem C01_chunk_multipliers_keep_length : forall w,
+  (forall la lb, keeps_len (simple_chunk_fn w) la lb) /\
+  (forall rec_same : mulfn, (forall m, keeps_len rec_same m m) -> forall n, (2 <= n)%nat -> keeps_len (karatsuba_same_len w rec_same) n n) /\
+  (forall div6 shr1 (rec_same : mulfn) c s a b r k, toom3g_same_len w div6 shr1 rec_same c s a b = Ok (r, k) -> length r = length c).
+Proof. intros w. split; [|split]. - exact (simple_chunk_keeps_len w). - exact (karatsuba_keeps_len w). - exact (toom3g_keeps_len w). Qed.
+Print Assumptions C01_chunk_multipliers_keep_length.
+
+(** the hand dispatchers satisfy the GENERATED recursion equations: one level of the real code around the model is the model *)
+Theorem C01_gen_same_len_dispatch_level : forall w (toom : mulfn -> mulfn) f (rec_gen : mulfn) c s a b,
+  mulg_same w toom THRESHOLD_SIMPLE_gen THRESHOLD_KARATSUBA_gen (S f) c s a b
+  = mul_add_signed_mul_same_len_body_gen w toom (mulg_same w toom THRESHOLD_SIMPLE_gen THRESHOLD_KARATSUBA_gen f) rec_gen c s a b.
+Proof. exact mulg_same_unfold_gen. Qed.
+Print Assumptions C01_gen_same_len_dispatch_level.
+
+Theorem C01_gen_dispatch_level : forall w (toom : mulfn -> mulfn),
+  (forall (rec_same : mulfn) c s a b r k, toom rec_same c s a b = Ok (r, k) -> length r = length c) ->
+  forall f c s a b, length c = (length a + length b)%nat ->
+  mulg_gen w toom THRESHOLD_SIMPLE_gen THRESHOLD_KARATSUBA_gen CHUNK_LEN_gen (S f) c s a b
+  = mul_add_signed_mul_body_gen w toom (mulg_same w toom THRESHOLD_SIMPLE_gen THRESHOLD_KARATSUBA_gen f)
+      (mulg_gen w toom THRESHOLD_SIMPLE_gen THRESHOLD_KARATSUBA_gen CHUNK_LEN_gen f) c s a b.
+Proof. exact mulg_gen_unfold_gen_full. Qed.
+Print Assumptions C01_gen_dispatch_level.
+
+(** the regenerated stack as a whole, with its generated fuel knot and the word-level Toom-3 step: same-length entry point
+    = hand model for EVERY input; general entry point and the four verif_hooks::mul_kernel entry points inside the length contract *)
+Theorem C01_gen_stack_same_len : forall w div2by1 c s a b,
+  gen_rec_same w div2by1 c s a b = add_signed_mul_same_len_w w div2by1 THRESHOLD_SIMPLE_gen THRESHOLD_KARATSUBA_gen c s a b.
+Proof. exact gen_rec_same_eq. Qed.
+Print Assumptions C01_gen_stack_same_len.
+
+Theorem C01_gen_stack : forall w div2by1 c s a b, length c = (length a + length b)%nat ->
+  gen_rec_gen w div2by1 c s a b = add_signed_mul_w w div2by1 THRESHOLD_SIMPLE_gen THRESHOLD_KARATSUBA_gen CHUNK_LEN_gen c s a b.
+Proof. exact gen_rec_gen_eq. Qed.
+Print Assumptions C01_gen_stack.
+
+Theorem C01_gen_stack_kernel_entries : forall w div2by1 which c s a b,
+  length c = (length a + length b)%nat -> (which = 2 -> (2 <= length b)%nat) ->
+  kmul_bodies_gen w div2by1 which c s a b =
+  (if which =? 0 then add_signed_mul_w w div2by1 THRESHOLD_SIMPLE_gen THRESHOLD_KARATSUBA_gen CHUNK_LEN_gen c s a b
+   else if which =? 1 then simple_add_signed_mul_w w div2by1 THRESHOLD_SIMPLE_gen THRESHOLD_KARATSUBA_gen CHUNK_LEN_gen c s a b
+   else if which =? 2 then karatsuba_add_signed_mul_w w div2by1 THRESHOLD_SIMPLE_gen THRESHOLD_KARATSUBA_gen CHUNK_LEN_gen c s a b
+   else toom3_add_signed_mul_w w div2by1 THRESHOLD_SIMPLE_gen THRESHOLD_KARATSUBA_gen CHUNK_LEN_gen c s a b).
+Proof. exact kmul_bodies_gen_eq. Qed.
+Print Assumptions C01_gen_stack_kernel_entries.
+
+(** mul::multiply and sqr::sqr as generated, on the zero-filled buffer their callers allocate = multiply_w / sqr_w; with
+    C01_multiply_word_level / C01_sqr_word_level the regenerated code returns exactly a * b and a^2 *)
+Theorem C01_gen_multiply_sqr : forall w div2by1,
+  (forall a b, mul_multiply_gen (gen_rec_same w div2by1) (gen_rec_gen w div2by1) (repeat 0 (length a + length b)) a b
+               = multiply_w w div2by1 THRESHOLD_SIMPLE_gen THRESHOLD_KARATSUBA_gen CHUNK_LEN_gen a b) /\
+  (forall a, ksqr_bodies_gen w div2by1 a = sqr_w w div2by1 THRESHOLD_SIMPLE_gen THRESHOLD_KARATSUBA_gen MAX_LEN_SIMPLE_gen a).
+Proof. intros w d. split. - exact (multiply_bodies_gen_eq w d). - exact (ksqr_bodies_gen_eq w d). Qed.
+Print Assumptions C01_gen_multiply_sqr.
+Example C01_gen_stack_nonvacuous :
+  mul_multiply_gen (gen_rec_same 64 DivWordInst.x2by1) (gen_rec_gen 64 DivWordInst.x2by1) (repeat 0 3) [2 ^ 64 - 1; 5] [2 ^ 64 - 1] = Ok [1; 2 ^ 64 - 7; 5].
+Proof. vm_compute. reflexivity. Qed.
